@@ -46,7 +46,7 @@ sys.setrecursionlimit(max(sys.getrecursionlimit(), 40000))
 
 _BUILTINS = builtins.__dict__
 
-REPO_SRC = os.path.realpath(os.environ.get("RV_REPO_SRC", "/repo/src/python")) + os.sep
+REPO_SRC = os.path.realpath(os.environ.get("RV_REPO_SRC") or os.path.join(os.environ.get("RV_REPO", "/repo"), "src", "python")) + os.sep
 VERIF_DIR = os.path.realpath(os.path.join(os.path.dirname(__file__), "..")) + os.sep
 CONTRACT_DIR = VERIF_DIR + "contracts" + os.sep
 
@@ -1092,6 +1092,10 @@ class Interp:
         return _CMPOPS[op](a, b)
 
     def contains(self, container, x):
+        from .heap import SymList
+
+        if isinstance(container, SymList):
+            return container.sym_contains(x)
         if isinstance(container, range) and isinstance(x, (SymInt, SymBool)):
             xi = x if isinstance(x, SymInt) else x._i()
             st, sp, step = container.start, container.stop, container.step
@@ -1490,6 +1494,10 @@ def _m_isinstance(I, obj, cls):
             return cls in (float, object) or _abc_number(cls)
         if isinstance(obj, SymFile):
             return cls in (io.BytesIO, io.IOBase, io.BufferedIOBase, object, SymFile)
+        from .heap import SymList
+
+        if isinstance(obj, SymList):
+            return cls in (list, object)
         from .strings import SymStr
 
         if isinstance(obj, SymStr):
@@ -1616,6 +1624,10 @@ def _m_bytes(I, *args, **kw):
 
 @model(len)
 def _m_len(I, o):
+    from .heap import SymList
+
+    if isinstance(o, SymList):
+        return o.sym_len()
     d = _type_lookup(type(o), "__len__")
     if isinstance(d, types.FunctionType) and interpretable(d):
         return I.call_function(d, (o,), {})
